@@ -40,12 +40,20 @@ A3 = docspace.A0 + [
     "Thompson at 8",
 ]
 ALPHABETS = {"A3": A3}
+FE_EXTRA = ["Bar at ", "Foo at ", "In ", "and "]
 DEPTH = {"quick": {"AC": 3, "HS": 2, "REF": 2, "MERGE": 2}, "thorough": {"AC": 4, "HS": 3, "REF": 3, "MERGE": 3}}
 MERGE_TEMPLATES = [
     "See, e.g., State v. W1ngler, 135 A. 2d 468 (1957); [State v. Wingler at 175, citing, Minnesota ex rel.]",
     "Foo v. Bar, 1 U.S. 1 (1999). Roe v. Wade, 2 F.2d 2. In Bar at 9, and Wade at 3, Foo at 12; 1 U.S. at 5. Foo at 12",
     "A v. B, 550 U.S. at 556, 127 S.Ct. 1955. Smith v. Jones, 3 Cal. 4th 5, Jones at 7, Jones at 8; Smith at 3",
 ]
+
+
+FE_TEMPLATES = [
+    ["Foo v. Bar, ", "1 U.S. 1", " (1999)", ". ", "In ", "Bar at 9, ", "and ", "Foo at 12", "; ", "Bar at ", "2 F.2d 2", ". "],
+    ["Foo v. Bar, ", "550 U.S. at 556, ", "127 S.Ct. 1955, ", "2 F.2d 2", " (1999)", ". ", "Id. at 5", ", ", "§ 3", "; ", "Foo, supra"],
+]
+FE_ALPHA = None  # set below
 
 
 MT_CHARS = {"quick": [" ", ",", ";", "a", "A", "1", "(", ")"], "thorough": [" ", ",", ";", "a", "A", "1", "(", ")", ".", "v", "§", "\n", "é", "-", "[", "]", "&", "'"]}
@@ -148,6 +156,8 @@ def shards(tier, seed):
         out += dd.seq_shards("plain-" + tok, "A3", len(A3), d[tok], tok)
     out += dd.seq_shards("merge-AC", "A3", len(A3), d["MERGE"], "AC", extra={"merge": True}, prefix_len=1)
     out += dd.residue_shards("pumped-AC", "pump", "AC", 16)
+    for ti in range(len(FE_TEMPLATES)):
+        out += dd.residue_shards("fragedit-AC", "fe", "AC", 4 if tier == "quick" else 16, {"t": ti, "edits": 1 if tier == "quick" else 2})
     out += dd.residue_shards("merge-templates", "mt", "AC", 16, {"edits": 1, "chars": "quick" if tier == "quick" else "thorough"})
     return out
 
@@ -213,6 +223,13 @@ def run_shard(sh):
             dd.char_mutations(t, MT_CHARS[sh.get("chars", "quick")], sh["edits"]) for t in MERGE_TEMPLATES
         )
         run_merge(st, sh["part"], dd.sliced(gen, sh["r"], sh["n"]), sh["tok"])
+        return st
+    if sh["kind"] == "fe":
+        gen = ("".join(seq) for seq, _ in docspace.edit_mutations(FE_TEMPLATES[sh["t"]], A3 + FE_EXTRA, sh["edits"]))
+        texts = list(dd.sliced(gen, sh["r"], sh["n"]))
+        cases = ({"part": sh["part"], "tok": sh["tok"], "text": t} for t in texts)
+        dd.run_cases(st, sh["part"], cases, evaluate, nontrivial=lambda c, t, cs: len(cs) >= 2)
+        run_merge(st, "fragedit-merge", texts, sh["tok"])
         return st
     if sh["kind"] == "pump":
         return dd.run_cases(st, sh["part"], pumped_cases(sh), evaluate, nontrivial=lambda c, t, cs: len(cs) >= 2)
